@@ -262,20 +262,75 @@ def _install_feasibility_counter():
     tda.is_combination_feasible = is_combination_feasible
 
 
+last_erasure = {}
+
+
+class ErasureUnbounded(Exception):
+    """TypeErasure drew more combinations for one function than its max_combinations option allows."""
+
+
+class _CountingItertools:
+    """Stand-in for the `itertools` name inside src.transformations.type_erasure: counts the combinations one
+    search (one chain.from_iterable iterator) hands out."""
+
+    def __init__(self, real):
+        self._real = real
+        self.limit = None
+        self.worst = 0
+        outer = self
+
+        class chain:
+            @staticmethod
+            def from_iterable(it):
+                n = 0
+                for x in real.chain.from_iterable(it):
+                    n += 1
+                    if n > outer.worst:
+                        outer.worst = n
+                    if outer.limit is not None and n > outer.limit:
+                        raise Oversize('erasure search drew %d combinations' % n)
+                    yield x
+        self.chain = chain
+
+    def __getattr__(self, name):
+        return getattr(self._real, name)
+
+
+def _install_combination_counter():
+    if 'comb' in _feas:
+        return _feas['comb']
+    import itertools
+    from src.transformations import type_erasure
+    c = _CountingItertools(itertools)
+    type_erasure.itertools = c
+    _feas['comb'] = c
+    return c
+
+
 def erase(program, lang, options=None, budget=2500):
     from src.transformations.type_erasure import TypeErasure
     _install_feasibility_counter()
+    comb = _install_combination_counter()
+    opts = options if options is not None else {'timeout': 600, 'max_combinations': ERASURE_MAX_COMBINATIONS}
+    mc = opts.get('max_combinations', 500000)
+    comb.limit = (mc + 2) if mc else None
+    comb.worst = 0
     # max_combinations is an option of the mutation (default 500000: the powerset search of one function can then take
     # minutes); the harness bounds it so that cases stay small - the search then simply stops earlier
-    t = TypeErasure(program, lang, None, options if options is not None else {'timeout': 600, 'max_combinations': ERASURE_MAX_COMBINATIONS})
+    t = TypeErasure(program, lang, None, opts)
     _feas['n'] = 0
     _feas['limit'] = budget
     try:
         t.transform()
-    except Oversize:
+    except Oversize as e:
+        if 'combinations' in str(e):
+            raise ErasureUnbounded(str(e) + ' although max_combinations=%s' % mc)
         raise ErasureBudget('more than %d feasibility checks' % budget)
     finally:
         _feas['limit'] = None
+        comb.limit = None
+        last_erasure['combinations'] = comb.worst
+        last_erasure['feasibility_calls'] = _feas['n']
     return t
 
 
@@ -389,13 +444,11 @@ def config_strategy(lang_fixed=None, small=False):
             'max_depth': st.integers(1, 4),
             'min_top_level': st.integers(0, 2),
             'max_top_level': st.integers(2, 4),
-            'max_type_params': st.integers(1, 3),
             'max_var_decls': st.integers(0, 3),
         })
     else:
         limits = st.fixed_dictionaries({
             'max_depth': st.sampled_from([6, 6, 6, 6, 2, 3, 4, 5, 7]),
-            'max_type_params': st.sampled_from([3, 3, 1, 2]),
             'min_top_level': st.sampled_from([5, 5, 1, 3]),
             'max_top_level': st.sampled_from([10, 10, 5, 7]),
         })
